@@ -239,7 +239,7 @@ KEYSTR = ["a", "b", "A", "B", "ab", "Ab", "k1", "K1", "x y", "", "1", "none"]
 PRIV = ["__a", "__A", "__p", "__"]
 
 
-def gen_atom(rng, rich=False):
+def gen_atom(rng, rich=False, nan_ok=False):
     r = rng.random()
     if r < 0.08:
         return None
@@ -258,7 +258,7 @@ def gen_atom(rng, rich=False):
         return rng.choice(BYTS)
     k = rng.random()
     if k < 0.3:
-        return float("nan")
+        return float("nan") if nan_ok else rng.choice(list(E))
     if k < 0.6:
         return rng.choice(list(E))
     return gen_dt(rng)
@@ -270,7 +270,7 @@ def gen_dt(rng):
                rng.choice([0, 0, 250000, 999999]), tz)
 
 
-def gen_key(rng, bytes_ok, numeric_ok, rich=False):
+def gen_key(rng, bytes_ok, numeric_ok, rich=False, nan_ok=False):
     r = rng.random()
     if r < 0.58:
         return rng.choice(KEYSTR)
@@ -292,7 +292,7 @@ def gen_key(rng, bytes_ok, numeric_ok, rich=False):
     if bytes_ok:
         return rng.choice(BYTS[:6])
     if rich and rng.random() < 0.5:
-        return rng.choice([E.A, E.B, gen_dt(rng), float("nan")])
+        return rng.choice([E.A, E.B, gen_dt(rng), float("nan") if nan_ok else E.C])
     return rng.choice(KEYSTR)
 
 
@@ -304,21 +304,21 @@ def distinct(items):
     return out
 
 
-def gen_value(rng, depth, width, bytes_ok=False, numeric_ok=True, rich=False):
+def gen_value(rng, depth, width, bytes_ok=False, numeric_ok=True, rich=False, nan_ok=False):
     if depth <= 0 or rng.random() < 0.22:
-        return gen_atom(rng, rich)
+        return gen_atom(rng, rich, nan_ok)
     k = rng.choice("LLTDDDSF")
     n = rng.randint(0, width)
     if k == "L":
         if rng.random() < 0.4:     # an all-atom list: the default mode goes through difflib
-            return [gen_atom(rng, rich) for _ in range(n)]
-        return [gen_value(rng, depth - 1, width, bytes_ok, numeric_ok, rich) for _ in range(n)]
+            return [gen_atom(rng, rich, nan_ok) for _ in range(n)]
+        return [gen_value(rng, depth - 1, width, bytes_ok, numeric_ok, rich, nan_ok) for _ in range(n)]
     if k == "T":
-        return tuple(gen_value(rng, depth - 1, width, bytes_ok, numeric_ok, rich) for _ in range(n))
+        return tuple(gen_value(rng, depth - 1, width, bytes_ok, numeric_ok, rich, nan_ok) for _ in range(n))
     if k == "D":
-        keys = distinct(gen_key(rng, bytes_ok, numeric_ok, rich) for _ in range(n))
-        return {q: gen_value(rng, depth - 1, width, bytes_ok, numeric_ok, rich) for q in keys}
-    items = distinct(gen_atom(rng, rich) for _ in range(n))
+        keys = distinct(gen_key(rng, bytes_ok, numeric_ok, rich, nan_ok) for _ in range(n))
+        return {q: gen_value(rng, depth - 1, width, bytes_ok, numeric_ok, rich, nan_ok) for q in keys}
+    items = distinct(gen_atom(rng, rich, nan_ok) for _ in range(n))
     return set(items) if k == "S" else frozenset(items)
 
 
@@ -600,9 +600,27 @@ def set_members(v, acc):
     return acc
 
 
+def all_atoms_of(v, acc):
+    if isinstance(v, dict):
+        for k, x in v.items():
+            acc.append(k)
+            all_atoms_of(x, acc)
+    elif isinstance(v, (list, tuple, set, frozenset)):
+        for x in v:
+            all_atoms_of(x, acc)
+    else:
+        acc.append(v)
+    return acc
+
+
 def features(a, b):
     ks = walk_keys(a, []) + walk_keys(b, [])
     f = set()
+    at = all_atoms_of(a, []) + all_atoms_of(b, [])
+    if any(isinstance(x, E) for x in at):
+        f.add("has_enum")
+    if any(isinstance(x, (datetime.datetime, datetime.date, datetime.time)) for x in at):
+        f.add("has_datetime")
     if any(isinstance(k, (int, float)) for k in ks):
         f.add("numeric_key")
     if any(isinstance(k, bytes) for k in ks):
@@ -810,6 +828,19 @@ def m_dtkey(c):
     return c["exc"] == "TypeError" and _cleaning(c["spec"]) and "datetime_key" in c["features"] and c["clause"] in ("A", "C")
 
 
+def m_enum_type(c):
+    """use_enum_value switches the type check off when ONE side is an enum member; the comparer chosen by the type of t1
+    then meets an operand of another type"""
+    return c["exc"] in ("TypeError", "AttributeError") and c["spec"]["enum"] and "has_enum" in c["features"] and c["clause"] in ("A", "C")
+
+
+def m_numgroup_dt(c):
+    """helper.numbers contains the datetime types: under ignore_numeric_type_changes a datetime and a number pass the
+    type check and reach _diff_datetime / number_to_string with the wrong operand"""
+    return (c["exc"] in ("TypeError", "AttributeError") and c["spec"]["numty"] and "has_datetime" in c["features"]
+            and c["clause"] in ("A", "C"))
+
+
 def m_bytes_key(c):
     return c["exc"] == "TypeError" and "bytes_key" in c["features"] and c["clause"] in ("A", "C")
 
@@ -847,7 +878,12 @@ def m_enum_key(c):
 
 
 def m_nan_key(c):
-    return _only(c, ("nan",), ("key",))
+    """a nan dict key anywhere: its copy is another object and nan != nan"""
+    return c["clause"] == "A" and c["exc"] is None and c["spec"]["nan"] and "nan_key" in c["features"]
+
+
+def m_dt_key_set(c):
+    return _only(c, ("trunc",), ("key", "set")) or _only(c, ("tz",), ("key",))
 
 
 def m_collision(c):
@@ -873,6 +909,8 @@ MATCHERS = {
     "K8": m_k8,
     "C11-DATETIME-KEY": m_dtkey,
     "C11-BYTES-KEY-RAISE": m_bytes_key,
+    "C11-ENUM-TYPE": m_enum_type,
+    "C11-NUMGROUP-DATETIME": m_numgroup_dt,
     "C11-NUM-KEY": m_num_key,
     "C11-EPS-SET": m_eps_set,
     "C11-EPS-OVER-SIG": m_eps_over_sig,
@@ -884,6 +922,7 @@ MATCHERS = {
     "C11-ALIAS-KEY": m_alias_key,
     "C11-TAG-SET": m_tag_set,
     "C11-MEMO-SET": m_memo_set,
+    "C11-DATETIME-KEY-SET": m_dt_key_set,
 }
 
 
@@ -942,7 +981,7 @@ def gen_pairs(rng, sp, n, rich):
     for i in range(n):
         numeric_ok = (not k8_active(sp)) or rng.random() < 0.3
         bytes_ok = sp["strty"] and rng.random() < 0.7
-        a = gen_value(rng, rng.choice([1, 2, 2, 3]), rng.choice([2, 3, 4]), bytes_ok, numeric_ok, rich)
+        a = gen_value(rng, rng.choice([1, 2, 2, 3]), rng.choice([2, 3, 4]), bytes_ok, numeric_ok, rich, sp["nan"])
         r = rng.random()
         log = []
         if r < 0.5:
@@ -964,7 +1003,7 @@ def gen_pairs(rng, sp, n, rich):
             fam = "alias"
         else:
             if rng.random() < 0.5:
-                b = gen_value(rng, 2, 3, bytes_ok, numeric_ok, rich)
+                b = gen_value(rng, 2, 3, bytes_ok, numeric_ok, rich, sp["nan"])
             else:
                 b = a
                 for _ in range(rng.randint(1, 3)):
@@ -1050,10 +1089,10 @@ def run(ctx):
     rng = ctx.rng
     thorough = ctx.thorough
     replay_witnesses(ctx)
-    atom_level(ctx, 1200 if thorough else 300)
+    atom_level(ctx, 3000 if thorough else 600)
 
     # ---- structural correspondence + oracle on the modelled universe ----
-    per_spec = 220 if thorough else 34
+    per_spec = 700 if thorough else 150
     mjobs, ojobs = [], []
     specs = all_specs(rng, True)
     for name, sp in specs:
@@ -1106,7 +1145,7 @@ def run(ctx):
         ctx.sample(c[2])
 
     # ---- direct oracle on the rich universe, all eleven options ----
-    per_spec = 160 if thorough else 22
+    per_spec = 500 if thorough else 100
     ojobs = []
     for name, sp in all_specs(rng, False):
         for fam, a, b, log in gen_pairs(rng, sp, per_spec, True):
